@@ -1256,7 +1256,7 @@ func (r *Resolver) addSubscription(triggerID uint64, add *addSubscription) error
 			for _, sub := range trig.snapshotSubscriptions() {
 				sub.writeError(r.errorFormatter, sub.ctx, err, sub.resolve.Response)
 			}
-			r.doneTriggerFromUpdater(triggerID)
+			r.doneTriggerFromUpdater(trig.updater)
 			return
 		}
 
@@ -1274,6 +1274,19 @@ func (r *Resolver) getTrigger(id uint64) (*trigger, bool) {
 	trig, ok := r.triggers[id]
 	r.mu.Unlock()
 	return trig, ok
+}
+
+// getUpdaterTrigger returns the trigger u was created for while it is still registered.
+// Trigger ids are derived from input and headers, so after a trigger has been removed a newer
+// one can be registered under the same id; callbacks of the old updater must never reach it.
+func (r *Resolver) getUpdaterTrigger(u *subscriptionUpdater) (*trigger, bool) {
+	r.mu.Lock()
+	defer r.mu.Unlock()
+	trig, ok := r.triggers[u.triggerID]
+	if !ok || trig.updater != u {
+		return nil, false
+	}
+	return trig, true
 }
 
 // markTriggerInitialized marks a trigger as initialized and reports it.
@@ -1294,12 +1307,15 @@ func (r *Resolver) markTriggerInitialized(trig *trigger) {
 
 // doneTriggerFromUpdater performs cleanup for a trigger from a datasource/updater goroutine.
 // It detaches the trigger, runs done toClose (close completed channels), and cancels the trigger context.
-func (r *Resolver) doneTriggerFromUpdater(triggerID uint64) {
+func (r *Resolver) doneTriggerFromUpdater(u *subscriptionUpdater) {
 	if r.options.Debug {
-		fmt.Printf("resolver:trigger:shutdown:%d\n", triggerID)
+		fmt.Printf("resolver:trigger:shutdown:%d\n", u.triggerID)
 	}
 	r.mu.Lock()
-	res := r.detachTriggerLocked(triggerID)
+	var res removeResult
+	if trig, ok := r.triggers[u.triggerID]; ok && trig.updater == u {
+		res = r.detachTriggerLocked(u.triggerID)
+	}
 	if r.reporter != nil {
 		r.reporter.SubscriptionCountDec(res.removed)
 		if res.initialized {
@@ -1315,8 +1331,8 @@ func (r *Resolver) doneTriggerFromUpdater(triggerID uint64) {
 
 // handleTriggerComplete delivers a complete signal to all subscriptions on the trigger.
 // Does NOT detach the trigger — Done() does that.
-func (r *Resolver) handleTriggerComplete(triggerID uint64) {
-	trig, ok := r.getTrigger(triggerID)
+func (r *Resolver) handleTriggerComplete(u *subscriptionUpdater) {
+	trig, ok := r.getUpdaterTrigger(u)
 	if !ok {
 		return
 	}
@@ -1331,8 +1347,8 @@ func (r *Resolver) handleTriggerComplete(triggerID uint64) {
 
 // handleTriggerError delivers a terminal error to all subscriptions on the trigger,
 // bypassing the resolve pipeline. Does NOT detach the trigger — Done() does that.
-func (r *Resolver) handleTriggerError(triggerID uint64, data []byte) {
-	trig, ok := r.getTrigger(triggerID)
+func (r *Resolver) handleTriggerError(u *subscriptionUpdater, data []byte) {
+	trig, ok := r.getUpdaterTrigger(u)
 	if !ok {
 		return
 	}
@@ -1491,13 +1507,13 @@ type pendingFilterError struct {
 }
 
 // handleTriggerUpdate sends data to all subscriptions of a trigger.
-func (r *Resolver) handleTriggerUpdate(id uint64, data []byte) {
-	trig, ok := r.getTrigger(id)
+func (r *Resolver) handleTriggerUpdate(u *subscriptionUpdater, data []byte) {
+	trig, ok := r.getUpdaterTrigger(u)
 	if !ok {
 		return
 	}
 	if r.options.Debug {
-		fmt.Printf("resolver:trigger:update:%d\n", id)
+		fmt.Printf("resolver:trigger:update:%d\n", u.triggerID)
 	}
 
 	subs, filterErrors := trig.filterSubscriptions(data)
@@ -1519,14 +1535,14 @@ func (r *Resolver) handleTriggerUpdate(id uint64, data []byte) {
 }
 
 // handleUpdateSubscription sends data to a single subscription.
-func (r *Resolver) handleUpdateSubscription(id uint64, data []byte, subIdentifier SubscriptionIdentifier) {
-	trig, ok := r.getTrigger(id)
+func (r *Resolver) handleUpdateSubscription(u *subscriptionUpdater, data []byte, subIdentifier SubscriptionIdentifier) {
+	trig, ok := r.getUpdaterTrigger(u)
 	if !ok {
 		return
 	}
 
 	if r.options.Debug {
-		fmt.Printf("resolver:trigger:subscription:update:%d:%d,%d\n", id, subIdentifier.ConnectionID, subIdentifier.SubscriptionID)
+		fmt.Printf("resolver:trigger:subscription:update:%d:%d,%d\n", u.triggerID, subIdentifier.ConnectionID, subIdentifier.SubscriptionID)
 	}
 
 	sub, filterErr := trig.filterSubscription(subIdentifier, data)
@@ -1940,7 +1956,7 @@ func (s *subscriptionUpdater) Update(data []byte) {
 	if s.debug {
 		fmt.Printf("resolver:subscription_updater:update:%d\n", s.triggerID)
 	}
-	s.resolver.handleTriggerUpdate(s.triggerID, data)
+	s.resolver.handleTriggerUpdate(s, data)
 }
 
 func (s *subscriptionUpdater) Heartbeat() {
@@ -1961,7 +1977,7 @@ func (s *subscriptionUpdater) UpdateSubscription(id SubscriptionIdentifier, data
 	if s.debug {
 		fmt.Printf("resolver:subscription_updater:update:%d\n", s.triggerID)
 	}
-	s.resolver.handleUpdateSubscription(s.triggerID, data, id)
+	s.resolver.handleUpdateSubscription(s, data, id)
 }
 
 func (s *subscriptionUpdater) Subscriptions() map[context.Context]SubscriptionIdentifier {
@@ -1980,7 +1996,7 @@ func (s *subscriptionUpdater) Complete() {
 	if s.debug {
 		fmt.Printf("resolver:subscription_updater:complete:%d\n", s.triggerID)
 	}
-	s.resolver.handleTriggerComplete(s.triggerID)
+	s.resolver.handleTriggerComplete(s)
 }
 
 func (s *subscriptionUpdater) Error(data []byte) {
@@ -1995,7 +2011,7 @@ func (s *subscriptionUpdater) Error(data []byte) {
 	if s.debug {
 		fmt.Printf("resolver:subscription_updater:error:%d\n", s.triggerID)
 	}
-	s.resolver.handleTriggerError(s.triggerID, data)
+	s.resolver.handleTriggerError(s, data)
 }
 
 func (s *subscriptionUpdater) Done() {
@@ -2008,7 +2024,7 @@ func (s *subscriptionUpdater) Done() {
 	if s.debug {
 		fmt.Printf("resolver:subscription_updater:done:%d\n", s.triggerID)
 	}
-	s.resolver.doneTriggerFromUpdater(s.triggerID)
+	s.resolver.doneTriggerFromUpdater(s)
 }
 
 func (s *subscriptionUpdater) CloseSubscription(id SubscriptionIdentifier) {
